@@ -76,6 +76,7 @@ type c14Side struct {
 	rootReplaced       bool
 	nilPackageChildren int  // callbacks whose parent is the package and whose node is nil
 	nilPre, nilPost    int  // callbacks on nil child slots, per phase
+	nilListElems       int  // pre callbacks on a nil element of a list (Index() >= 0)
 	rootMode           bool // scripts that only replace the root and abort (no other edits, so no early panics)
 }
 
@@ -143,6 +144,9 @@ func (s *c14Side) on(phase string, node, parent interface{}, name string, index 
 		// pre and post are both called for a nil child slot: counted per phase
 		if phase == "pre" {
 			s.nilPre++
+			if index >= 0 {
+				s.nilListElems++
+			}
 		} else {
 			s.nilPost++
 		}
@@ -334,7 +338,7 @@ var dstTypes = func() map[string]reflect.Type {
 func dstShape(n dst.Node) []string {
 	var out []string
 	dst.Inspect(n, func(x dst.Node) bool {
-		if x == nil {
+		if refl.IsNil(x) {
 			return false
 		}
 		out = append(out, shapeOf(x))
@@ -353,6 +357,9 @@ func astShape(n ast.Node) []string {
 		case nil:
 			return false
 		case *ast.CommentGroup, *ast.Comment:
+			return false
+		}
+		if refl.IsNil(x) {
 			return false
 		}
 		out = append(out, shapeOf(x))
@@ -515,6 +522,27 @@ func c14RunMode(c *fw.Ctx, id string, droot dst.Node, aroot ast.Node, d *decorat
 		}
 		return true
 	})
+	// hand-made holes: in a quarter of the runs the last name of every value spec / field with two
+	// or more names is a nil identifier on both sides (a list element that is nil is still an
+	// element: astutil calls back for it with a nil Node and a valid Index)
+	holes := 0
+	if !rootMode && seed%4 == 1 {
+		ast.Inspect(aroot, func(x ast.Node) bool {
+			switch v := x.(type) {
+			case *ast.ValueSpec:
+				if dv, ok := d.Dst.Nodes[v].(*dst.ValueSpec); ok && len(v.Names) >= 2 && len(dv.Names) == len(v.Names) && len(v.Values) == 0 {
+					v.Names[len(v.Names)-1], dv.Names[len(dv.Names)-1] = nil, nil
+					holes++
+				}
+			case *ast.Field:
+				if dv, ok := d.Dst.Nodes[v].(*dst.Field); ok && len(v.Names) >= 2 && len(dv.Names) == len(v.Names) {
+					v.Names[len(v.Names)-1], dv.Names[len(dv.Names)-1] = nil, nil
+					holes++
+				}
+			}
+			return true
+		})
+	}
 	invariantBroken := ""
 	dpre := func(cu *dstutil.Cursor) bool {
 		return ds.on("pre", cu.Node(), cu.Parent(), cu.Name(), cu.Index(), dstCur{cu})
@@ -539,6 +567,12 @@ func c14RunMode(c *fw.Ctx, id string, droot dst.Node, aroot ast.Node, d *decorat
 	// nil nodes); only judged for runs that neither aborted nor panicked, as astutil is the reference
 	if dsig == "" && asig == "" && ds.ops["post-false"] == 0 && as.nilPre == as.nilPost && ds.nilPre != ds.nilPost {
 		viol("nil-slot-callbacks", "nil-slot-callbacks", fmt.Sprintf("callbacks on nil child slots: dstutil pre %d / post %d, astutil pre %d / post %d", ds.nilPre, ds.nilPost, as.nilPre, as.nilPost))
+	}
+	if dsig == "" && asig == "" && ds.ops["post-false"] == 0 && ds.ops["pre-false"] == 0 && as.ops["pre-false"] == 0 && holes > 0 {
+		c.Count("runs_with_nil_list_elements", 1)
+		if ds.nilListElems != as.nilListElems && len(ds.log) == len(as.log) {
+			viol("nil-list-elements", "nil-list-elements", fmt.Sprintf("%d list elements were made nil on both sides: dstutil called back for %d nil elements, astutil for %d", holes, ds.nilListElems, as.nilListElems))
+		}
 	}
 	if ds.nilPackageChildren != as.nilPackageChildren {
 		viol("package-children", "package-children:nil", fmt.Sprintf("callbacks with the package as parent and a nil node: dstutil %d, astutil %d (a package's children are exactly its files)", ds.nilPackageChildren, as.nilPackageChildren))
